@@ -71,7 +71,7 @@ static void state_out(const ZSTD_CCtx* c) {
     printf(" ap=%u,%u,%u,%d,%d,%d,%u bsmax=%zu", ap->cParams.windowLog, ap->cParams.chainLog, ap->cParams.hashLog, (int)ap->cParams.strategy,
            ap->useRowMatchFinder == ZSTD_ps_enable, ldmOn, ms->hashLog3, c->blockSize);
     w_out("W", &ms->window);
-    printf(" lde=%u dms=%d fnc=%d ntu=%u", ms->loadedDictEnd, ms->dictMatchState != NULL, ms->forceNonContiguous, ms->nextToUpdate);
+    printf(" lde=%u dms=%d fnc=%d ntu=%u ofs=%d", ms->loadedDictEnd, ms->dictMatchState != NULL, ms->forceNonContiguous, ms->nextToUpdate, ms->opt.litLengthSum == 0);
     if (ms->dictMatchState) { w_out("DW", &ms->dictMatchState->window); }
     if (ldmOn) { w_out("LW", &c->ldmState.window); printf(" llde=%u", c->ldmState.loadedDictEnd); }
     if (c->localDict.cdict) { const ZSTD_matchState_t* const cm = &c->localDict.cdict->matchState;
